@@ -148,7 +148,12 @@ pub fn worker_main(def: &'static PropDef, tier: Tier, seed: u64, start: u64, str
 		if handle.is_finished() {
 			return match handle.join() {
 				Ok(()) => 0,
-				Err(_) => 4,
+				Err(_) => {
+					// A panic outside the guarded calls into xt: a bug of the harness itself.
+					let msg = crate::exec::LAST_PANIC_GLOBAL.lock().ok().and_then(|g| g.clone()).unwrap_or_default();
+					println!("X\t{}\t{}", current.load(Ordering::SeqCst), msg.replace(['\t', '\n'], " "));
+					4
+				}
 			};
 		}
 		std::thread::sleep(Duration::from_millis(100));
@@ -276,7 +281,11 @@ pub fn eval_case_main(def: &'static PropDef, case: J) -> i32 {
 	match h.join() {
 		Ok(0) => 0,
 		Ok(_) => 1,
-		Err(_) => 4,
+		Err(_) => {
+			let msg = crate::exec::LAST_PANIC_GLOBAL.lock().ok().and_then(|g| g.clone()).unwrap_or_default();
+			println!("X\t0\t{msg}");
+			4
+		}
 	}
 }
 
@@ -315,6 +324,7 @@ struct WorkerOut {
 	samples_t: Vec<(u64, String)>,
 	stats: Option<J>,
 	hang: Option<u64>,
+	harness_panic: Option<String>,
 	status: String,
 }
 
@@ -328,7 +338,7 @@ fn spawn_worker(def: &PropDef, tier: Tier, seed: u64, start: u64, stride: u64, r
 	let mut child = cmd.spawn().expect("spawn worker");
 	std::thread::spawn(move || {
 		let stdout = child.stdout.take().unwrap();
-		let mut wo = WorkerOut { known: vec![], violations: vec![], samples_t: vec![], stats: None, hang: None, status: String::new() };
+		let mut wo = WorkerOut { known: vec![], violations: vec![], samples_t: vec![], stats: None, hang: None, harness_panic: None, status: String::new() };
 		for line in BufReader::new(stdout).lines() {
 			let Ok(line) = line else { break };
 			let p: Vec<&str> = line.splitn(4, '\t').collect();
@@ -338,6 +348,7 @@ fn spawn_worker(def: &PropDef, tier: Tier, seed: u64, start: u64, stride: u64, r
 				Some("T") if p.len() >= 3 => wo.samples_t.push((p[1].parse().unwrap_or(0), format!("{}/{}", p[2], p.get(3).unwrap_or(&"")))),
 				Some("S") if p.len() >= 2 => wo.stats = serde_json::from_str(&line[2..]).ok(),
 				Some("H") if p.len() >= 2 => wo.hang = p[1].parse().ok(),
+				Some("X") if p.len() >= 2 => wo.harness_panic = Some(format!("harness panic while evaluating run {}: {}", p[1], p.get(2).unwrap_or(&""))),
 				_ => {}
 			}
 		}
@@ -430,7 +441,9 @@ pub fn check_main(def: &'static PropDef, opts: &CheckOpts) -> i32 {
 			if let Some(s) = wo.stats {
 				stats.push(s);
 			}
-			if !clean {
+			if let Some(hp) = &wo.harness_panic {
+				harness_faults.push(hp.clone());
+			} else if !clean {
 				// The worker died: attribute to the in-flight run index and resume after it.
 				let inflight = wo.hang.or_else(|| std::fs::read_to_string(format!("{BUILD_DIR}/inflight/{}.{}", def.id, w)).ok().and_then(|s| s.trim().parse().ok()));
 				match inflight {
